@@ -9,7 +9,7 @@ pub fn write_list_shards(
     prefix: &str,
     header: &str,
     elem_type: &str,
-    check_fn: &str,
+    check_fns: &[String],
     items: &[String],
     shard_size: usize,
 ) -> Vec<String> {
@@ -37,7 +37,9 @@ pub fn write_list_shards(
             acc = blocks.join(" ++ ");
         }
         writeln!(f, "Definition cases : list {} := {}.", elem_type, acc).unwrap();
-        writeln!(f, "Eval vm_compute in ({} {} cases).", check_fn, base).unwrap();
+        for cf in check_fns {
+            writeln!(f, "Eval vm_compute in ({} {} cases).", cf, base).unwrap();
+        }
         names.push(name);
     }
     names
